@@ -233,6 +233,7 @@ func suiteSvc(tier string, r *rng) func(emit func(pureCase)) {
 			emit(restartCase(how))
 			emit(stalledCase(how))
 		}
+		emit(restartCase("slowclose"))
 		// Stop racing the end of an upgrade (known finding D20)
 		oneR([]string{"start", "conn", "stop"}, true)
 		var rec func(cur []string, n int)
@@ -443,6 +444,21 @@ func restartCase(how string) pureCase {
 			pc.impl, pc.specErr = "stop-hangs", stopHangs
 			return pc
 		}
+	} else if how == "slowclose" {
+		// the messaging client's Close does not return: Stop gives up waiting after its own
+		// timeout, and must all the same leave a service that is completely stopped (restartable)
+		hang := make(chan struct{})
+		m.mu.Lock()
+		m.closeHang = hang
+		m.mu.Unlock()
+		defer close(hang)
+		if !stopB(serv, nil) {
+			pc.impl, pc.specErr = "stop-hangs", "Stop did not return within 8 s while the messaging client's Close was blocked (its own bound is 3 s)"
+			return pc
+		}
+		m.mu.Lock()
+		m.closeHang = nil
+		m.mu.Unlock()
 	} else if m.closedH != nil {
 		returned := make(chan struct{})
 		go func() { m.lose(fmt.Errorf("lost")); close(returned) }()
